@@ -166,15 +166,15 @@ func c15RunF(mainStates, personalStates []int, maxAttemptsHi int, symbolicDelays
 	if verifIsSymbolicRun() {
 		reads := verifFSReads(mainPath)
 		if ms == c15Missing || ms == c15Denied {
-			verifAssert(reads == 1, "C15: a missing or permission-denied database file is read exactly once")
+			verifAssertModel(reads == 1, "C15: a missing or permission-denied database file is read exactly once")
 		}
-		verifAssert(reads <= attempts+1, "C15: at most the configured number of attempts (plus none by the fallbacks)")
+		verifAssertModel(reads <= attempts+1, "C15: at most the configured number of attempts (plus none by the fallbacks)")
 		sl := verifSleeps()
-		verifAssert(len(sl) <= attempts-1, "C15: at most attempts-1 waits")
+		verifAssertModel(len(sl) <= attempts-1, "C15: at most attempts-1 waits")
 		for i, d := range sl {
-			verifAssert(d <= int64(cfg.MaxDelay), "C15: no wait exceeds the configured maximum")
+			verifAssertModel(d <= int64(cfg.MaxDelay), "C15: no wait exceeds the configured maximum")
 			if i > 0 {
-				verifAssert(sl[i-1] <= d, "C15: waits never decrease")
+				verifAssertModel(sl[i-1] <= d, "C15: waits never decrease")
 			}
 		}
 	}
